@@ -474,6 +474,25 @@ ForgetS(d, S) ==
 Forget(d, c) == ForgetS(d, {c})
 
 -----------------------------------------------------------------------------
+(* Conversions beyond the 17 listed properties (the specification keeps growing with the library's surface):   *)
+(* histogram() reduces the sub-aggregators of a Bin / SparselyBin to their entry counts; Stack.build stacks    *)
+(* cumulative sums of compatible aggregators; Fraction.build pairs a numerator with a denominator.             *)
+CountOf(c) == [k |-> "Count", e |-> c.e]
+Histo(c) ==
+  CASE c.k = "Bin" -> [c EXCEPT !.vals = [i \in DOMAIN @ |-> CountOf(@[i])]]
+    [] c.k = "SparselyBin" -> [c EXCEPT !.bins = [key \in DOMAIN @ |-> CountOf(@[key])], !.ctype = "Count"]
+HistoD(d) == [d EXCEPT !.value = [k |-> "Count", tr |-> "id"]]
+
+RECURSIVE MergeFrom(_, _)
+MergeFrom(cs, i) == IF i = Len(cs) THEN cs[i] ELSE Merge(cs[i], MergeFrom(cs, i + 1))   \* cs[i] + (cs[i+1] + ...) 
+RECURSIVE SumEnt(_)
+SumEnt(cs) == IF cs = <<>> THEN Q(0) ELSE Add(Head(cs).e, SumEnt(Tail(cs)))
+StackBuilt(cs) ==
+  [k |-> "Stack", e |-> SumEnt(cs), ths |-> [i \in DOMAIN cs |-> NaN],
+   bins |-> [i \in DOMAIN cs |-> MergeFrom(cs, i)], nan |-> [k |-> "Count", e |-> Q(0)], nm |-> ""]
+FractionBuilt(cn, cd) == [k |-> "Fraction", e |-> cd.e, num |-> cn, den |-> cd, nm |-> ""]
+
+-----------------------------------------------------------------------------
 (* Scale(c, d, f): c * f                                                    *)
 RECURSIVE ScaleP(_, _)
 ScaleP(c, f) ==   \* f > 0
